@@ -112,7 +112,10 @@ protected:
                                       !HasNoLockable && !HasOutOfLineLockable>
       NodeInfoTypes;
 
-  class NodeInfo
+  // The edge records of a node start directly behind its NodeInfo (and the
+  // next NodeInfo a multiple of sizeof(NodeInfo) further on), so NodeInfo must
+  // be at least as aligned as EdgeInfo, which holds a pointer.
+  class alignas(EdgeInfo) NodeInfo
       : public internal::NodeInfoBase<NodeTy,
                                       !HasNoLockable && !HasOutOfLineLockable>,
         public internal::IntrusiveId<
